@@ -3,7 +3,7 @@
    IRCP.InvNick (effects of the single operations), IRCP.ViewsP (what NAMES and WHOIS print).  The
    WHO text and the announcement-derived rosters are checked by the correspondence oracles (L2). *)
 From IRC Require Import Str Wild Glob Parse Reply State Handlers Step.
-From IRCP Require Import InvDefs InvPrims InvNick InvStep Reach ViewsP.
+From IRCP Require Import MsgP InvDefs InvPrims InvNick InvStep Reach ViewsP AnnounceMembersP.
 From stdpp Require Import gmap.
 
 Section C04.
@@ -71,6 +71,31 @@ Theorem C04_whois_text : forall s c client viewer n u r0, InvS s -> users s !! n
                               (chunks 30 (List.map (whois_chan_entry s c n) (List.filter (whois_chan_visible s) (elements (u_chans u))))) ++ post).
 Proof. exact (whois_channels_spec cfg). Qed.
 
+(* WHO #channel: one 352 per member of the channel with the member's rank prefix there, then 315;
+   only 315 for a secret channel the viewer is not on, or an absent one *)
+Theorem C04_who_text : forall i s c nick viewer mask, InvS s ->
+  c_nick c = Some nick -> users s !! nick = Some viewer ->
+  contains c_star mask || contains c_qmark mask = false -> validate_channel mask = true ->
+  process_who cfg i s c mask =
+  hr s c (mine cfg i ((match chans s !! mask with
+                       | Some co => if negb (cm_secret (ch_modes co)) || bool_decide (nick ∈ dom (ch_users co))
+                                    then concat (List.map (who_entry cfg s c (client_name c) mask viewer) (map_to_list (ch_users co)))
+                                    else []
+                       | None => []
+                       end) ++ [rpl_endofwho (client_name c) mask])).
+Proof. exact (who_channel_spec cfg). Qed.
+
+(* PART is announced to every member of the channel as it was before the departure - the departing
+   user included - one copy each (KICK, JOIN and NICK announcements: C09, C07 / C16, C15) *)
+Theorem C04_part_announced : forall i s c ch reason r nick co,
+  c_nick c = Some nick -> chans s !! ch = Some co -> nick ∈ dom (ch_users co) ->
+  process_part cfg i s c [ch] reason = Ok r ->
+  let line := from (c_source c) (match reason with
+                                 | Some t => lit "PART " ++ ch ++ lit " :" ++ t
+                                 | None => lit "PART " ++ ch end) in
+  Forall2 (delivered s line) (member_names co) (h_out r) /\ nick ∈ member_names co.
+Proof. exact (part_announced cfg). Qed.
+
 (* the two views read one relation: n is on #ch's roster iff #ch is in n's membership set *)
 Theorem C04_views_agree : forall s n u ch co, InvS s -> users s !! n = Some u -> chans s !! ch = Some co ->
   (n ∈ dom (ch_users co) <-> ch ∈ u_chans u).
@@ -86,3 +111,5 @@ Print Assumptions C04_names_complete.
 Print Assumptions C04_names_sound.
 Print Assumptions C04_whois_text.
 Print Assumptions C04_views_agree.
+Print Assumptions C04_who_text.
+Print Assumptions C04_part_announced.
